@@ -427,8 +427,8 @@ func PropC01(c *vs.Case, f Factory, kind string) error {
 			return vs.Violf("C01/field-not-converged", "%s: at the fixpoint a field the hook specified differs: %s\nlive=%v\nwant=%v%s", id, why, owned[id], want, tail())
 		}
 	}
-	if len(env.CacheViolations) > 0 {
-		return vs.Violf("C17/cache-mutated", "shared cache objects changed during a sync: %v", env.CacheViolations)
+	if v := env.SharedStateViolation(); v != nil {
+		return v
 	}
 	return nil
 }
